@@ -35,7 +35,11 @@ pub fn fold_multiassets<T>(
     for (key, value) in item.into_iter() {
         let mut map = acc.remove(&key).unwrap_or_default();
         fold_assets(&mut map, value);
-        acc.insert(key, map);
+
+        // amounts that cancel out must not leave an empty policy entry behind
+        if !map.is_empty() {
+            acc.insert(key, map);
+        }
     }
 }
 
